@@ -238,6 +238,28 @@ STRUCT += [
     ("big-semantic-tokens-20000", "SemanticTokensResponse", _resp({"data": list(range(20000))})),
     ("big-text-edits-5000", "DocumentFormattingResponse", _resp([{"range": R0, "newText": "x"}] * 5000)),
 ]
+def _deep_symbols(depth):
+    node = {"name": "leaf", "kind": 12, "range": R1, "selectionRange": R0}
+    for i in range(depth):
+        node = {"name": f"n{i}", "kind": 5, "range": R1, "selectionRange": R0, "children": [node]}
+    return node
+
+
+def _deep_selection(depth):
+    node = {"range": R0}
+    for _ in range(depth):
+        node = {"range": R1, "parent": node}
+    return node
+
+
+STRUCT += [
+    # deeply nested payloads: 120 levels are fine, 600 levels exceed the default recursion limit (an error,
+    # but the SAME error for every converter, alone or not)
+    ("big-deep-symbols-120", "DocumentSymbolResponse", _resp([_deep_symbols(120)])),
+    ("big-deep-symbols-600", "DocumentSymbolResponse", _resp([_deep_symbols(600)])),
+    ("big-deep-selection-150", "SelectionRangeResponse", _resp([_deep_selection(150)])),
+    ("big-deep-lspany-200", "ExecuteCommandRequest", _req("workspace/executeCommand", {"command": "c", "arguments": [eval("[" * 200 + "]" * 200)]})),
+]
 BIG = [i for i, b in enumerate(STRUCT) if b[0].startswith("big-")]
 
 BUILD = [
